@@ -14,6 +14,11 @@ package main
 //      body_text of every brace-free stretch (evaluated by the extracted Coq
 //      definition) between the known outputs of the tags; literal blocks and
 //      special-character commands must emit exactly their characters.
+//      What no longer rests on this check alone: a file that is ONE brace-free
+//      stretch of text with comments -- scanner model + parser model give the
+//      Spec's body_text (theorem C15_body_text_spec_partial; http://x clause:
+//      C15_http_not_comment).  Still by this check only: text between tags,
+//      {sp} {nil} {\n} {\r} {\t} {lb} {rb}, {literal} blocks, text after a tag.
 
 import (
 	"encoding/hex"
